@@ -63,6 +63,13 @@ func (o *oC03) OnEnd(k *Kernel) {
 		}
 	}
 	k.Probes["c03-records-after-stop"] = len(idx.Recs)
+	files := map[string]bool{}
+	for _, rec := range idx.Recs {
+		files[rec.File] = true
+	}
+	if len(files) > r.sc.Cfg.PoolSize && len(files) > 1 {
+		k.Probe("warc-rotation-runs") // more final files than writers: at least one writer rotated
+	}
 }
 
 func (r *e2e) pauseState() string {
